@@ -32,6 +32,9 @@ from .instr import (
 # A simple cache for the reverse lookup table
 REVERSE_OPCODES_CACHE: Dict[str, List[Dict[str, Any]]] = {}
 
+# Page-local control flow: 16-bit operand relative to the current 64 KiB page.
+NEAR_CONTROL_NAMES = {"CALL", "JP", "JPZ", "JPNZ", "JPC", "JPNC"}
+
 
 class AssemblerError(Exception):
     pass
@@ -297,6 +300,14 @@ class Assembler:
                                 setattr(op, "value", int(getattr(op, "value"), 0))
                             except ValueError:
                                 setattr(op, "value", 0)
+                        if (
+                            mnemonic in NEAR_CONTROL_NAMES
+                            and isinstance(op, Imm16)
+                            and isinstance(op.value, int)
+                        ):
+                            # Full 20-bit targets are checked against the
+                            # current page and reduced in pass two.
+                            op.value &= 0xFFFF
                         offset = getattr(op, "offset", None)
                         if isinstance(offset, ImmOffset) and isinstance(
                             offset.value, str
@@ -453,8 +464,7 @@ class Assembler:
     def _normalize_near_control_flow(self, instr: Instruction) -> None:
         """Resolve page-local CALL/JP* immediates against the current 64 KiB page."""
 
-        near_control_names = {"CALL", "JP", "JPZ", "JPNZ", "JPC", "JPNC"}
-        if instr.name() not in near_control_names:
+        if instr.name() not in NEAR_CONTROL_NAMES:
             return
 
         ops = list(instr.operands())
